@@ -391,6 +391,7 @@ func execAlgCase(c *Sx, st *algStats) (out *Sx, viols []Violation) {
 		target := idx(op.L[1])
 		other := -1
 		panicked := false
+		var exBefore [3][]string
 		func() {
 			defer func() {
 				if e := recover(); e != nil {
@@ -465,6 +466,7 @@ func execAlgCase(c *Sx, st *algStats) (out *Sx, viols []Violation) {
 				refs[target] = &cp
 			case "replace":
 				n, _ := strconv.ParseInt(op.L[4].A, 10, 32)
+				exBefore = exclOf(pool[target])
 				pool[target].ReplaceNamedPortWithMatchingPortNum(v1.Protocol(op.L[2].A), op.L[3].A, int32(n))
 				if n != -1 {
 					nr := *refs[target]
@@ -490,7 +492,11 @@ func execAlgCase(c *Sx, st *algStats) (out *Sx, viols []Violation) {
 		// the oracle stops judging the case from there on.
 		switch op.Head() {
 		case "replace":
-			inDomain = false
+			// the engine converts a name only when it resolves to a number (pod.go); the -1 form (only drops the name, may
+			// leave an empty protocol entry) is compared with the model but not judged
+			if op.L[4].A == "-1" {
+				inDomain = false
+			}
 		case "addconn":
 			if strings.Contains(op.L[3].String(), "(rm") {
 				inDomain = false
@@ -532,6 +538,18 @@ func execAlgCase(c *Sx, st *algStats) (out *Sx, viols []Violation) {
 			}()), opIdx)
 			// resynchronise so that one defect is reported once per case
 			refs[target] = rr[target]
+		}
+		// 3b. converting a name to its number drops the name and excludes nothing
+		if op.Head() == "replace" {
+			nm := op.L[3].A
+			if !reflect.DeepEqual(xx[target], exBefore) {
+				report("replace-excludes-name", fmt.Sprintf("after %s pool[%d]=%s excludes %v, before the step %v", op.String(), target, dd[target], xx[target], exBefore), opIdx)
+			}
+			for _, k := range nn[target][protoIdx(op.L[2].A)] {
+				if k == nm {
+					report("replace-keeps-name", fmt.Sprintf("after %s the name is still held by pool[%d]=%s", op.String(), target, dd[target]), opIdx)
+				}
+			}
 		}
 		// 4. named ports under union / copy
 		if op.Head() == "union" && !pool[target].AllowAll {
